@@ -606,6 +606,24 @@ class FitResult:
         self.inputs_u: Dict[str, Any] = {}
 
 
+def _magnified(base: Dict[str, Any], cfg: Dict[str, Any], data_seed: int) -> Dict[str, Any]:
+    """'all finite tensor values': when the configuration carries a list of magnitudes, each DRAW multiplies its activation
+    inputs by one of them (chosen by the draw's seed) - a data-independent scalar must not notice, and low-precision
+    intermediates (a float16 square, a sum) must not overflow / underflow where PyTorch's own op does not."""
+    mags = cfg.get("_mags")
+    if not mags:
+        return base
+    m = mags[data_seed % len(mags)]
+    if m == 1:
+        return base
+    out = dict(base)
+    for k in ("input", "other", "gate", "target"):
+        v = out.get(k)
+        if isinstance(v, torch.Tensor) and v.is_floating_point():
+            out[k] = (v.double() * m).to(v.dtype)
+    return out
+
+
 def relayout(t: torch.Tensor, layout: str) -> torch.Tensor:
     """Same values, same shape, other strides (what slicing / transposing hands to a function)."""
     if layout == "contiguous" or t.dim() == 0:
@@ -629,7 +647,7 @@ def run_fit(op: Op, U, cfg: Dict[str, Any], constraint: Any, dtype: torch.dtype,
     from .instruments import ScaleSpy, Snapshot, fit_scalar
 
     gen = torch.Generator().manual_seed(data_seed)
-    base = op.build(cfg, gen, dtype)
+    base = _magnified(op.build(cfg, gen, dtype), cfg, data_seed)
     fr = FitResult()
 
     layout, frozen = cfg.get("_layout", "contiguous"), cfg.get("_frozen")
@@ -715,7 +733,7 @@ def reference_noise(op: Op, cfg: Dict[str, Any], dtype: torch.dtype, data_seed: 
     noise floor: a low-precision deviation of the library is only judged if it exceeds a small multiple of what the reference op
     itself suffers on these inputs (cancellation in tiny normalised dims, few-element tensors ...)."""
     gen = torch.Generator().manual_seed(data_seed)
-    base = op.build(cfg, gen, dtype)
+    base = _magnified(op.build(cfg, gen, dtype), cfg, data_seed)
 
     def leaf(d, to):
         out = {}
